@@ -18,12 +18,18 @@ theorem link_good_id (st f oSt oF : Name) (hasInv : Bool) (s : St) (h : ∀ a b,
   show (runSteps (lkStep st f oSt oF true) (s.ids st) s).1 = s
   apply runSteps_fix_id
   intro a _
+  have hloop : (runSteps (lkInner st f oSt oF true a) (s.setOf st a f) s).1 = s := by
+    apply runSteps_fix_id
+    intro b hb
+    obtain ⟨h1, h2⟩ := h a b hb
+    rw [lkInner_true_fst]
+    simp [h1, h2]
+  have hnone : (s.setOf st a f).filter (fun l => !s.present oSt l) = [] := by
+    apply List.filter_eq_nil_iff.2
+    intro b hb
+    simp [(h a b hb).1]
   unfold lkStep
-  apply runSteps_fix_id
-  intro b hb
-  obtain ⟨h1, h2⟩ := h a b hb
-  rw [lkInner_true_fst]
-  simp [h1, h2]
+  simp only [if_true, hloop, hnone, lkRemoveAll, List.foldl_nil]
 
 theorem unique_good_id (st f : Name) (n : Bool) (s : St) (h : ∀ r ∈ uqRep st f n s, r.msg.conflict = true) :
     (uniqueCheck st f n true s).1 = s := by
@@ -59,8 +65,8 @@ theorem unique_good_id (st f : Name) (n : Bool) (s : St) (h : ∀ r ∈ uqRep st
     rw [uqStep2_true_str hT]
     split
     · next hr =>
-      by_cases hq : quirkEmptyIsNil = true ∧ v = []
-      · unfold uqRepair; rw [if_pos hq.2]
+      by_cases hq : v = []
+      · unfold uqRepair; rw [if_pos hq]
       · exfalso
         have := hsub ⟨st, f, .uqMissing v id, false⟩ (by simp [uqStep2, hT, hr, hq])
         cases this
